@@ -131,6 +131,28 @@ def run_world(binary, hooks, sc, hidden):
     with sut.Server(binary, cfg, hooks=hooks) as srv:
         w = twin.ScriptWorld(srv)
         try:
+            return _run_world_steps(srv, w, sc, hidden, hooks)
+        except wire.Closed as ex:
+            aborts = 0
+            try:
+                aborts = srv.snap()["handler_aborts"] if hooks and srv.alive() else 0
+            except (OSError, RuntimeError, ValueError):
+                pass
+            if aborts:
+                raise HandlerAbort("a session handler aborted (%s) during the script; connection closed: %s"
+                                   % ((srv.panics()[0] or ["?"])[-1][-160:], ex.kind))
+            raise
+        finally:
+            w.close()
+
+
+class HandlerAbort(Exception):
+    pass
+
+
+def _run_world_steps(srv, w, sc, hidden, hooks):
+    if True:
+        try:
             steps = list(sc["public"])
             if hidden:
                 # interleave: the hidden history runs after the public set-up (its relative order is kept)
@@ -182,8 +204,27 @@ def pair(args):
     out = dict(findings=[], inconclusive=None, queries=0, classes=[], sample=None)
     try:
         t0, _, a0 = run_world(binary, hooks, sc, False)
-        t1, leaked, a1 = run_world(binary, hooks, sc, True)
+    except NotRefused:
+        out["inconclusive"] = "twin pair: the observer's %s attempt was not refused" % sc.get("attempt_kind")
+        return out
+    except HandlerAbort as ex:
+        out["findings"].append(("twin:handler-abort", "%s; scenario %s" % (ex, {k: sc[k] for k in ("variant", "public", "queries")})))
+        return out
     except (wire.Closed, wire.Timeout, OSError, RuntimeError) as ex:
+        out["inconclusive"] = "twin pair (world without the hidden part): %r" % (ex,)
+        return out
+    try:
+        t1, leaked, a1 = run_world(binary, hooks, sc, True)
+    except HandlerAbort as ex:
+        out["findings"].append(("twin:handler-abort", "%s; hidden history %s" % (ex, sc["hidden"])))
+        return out
+    except wire.Closed as ex:
+        # the same script ran to its end in the world without the hidden part: being cut off is an answer that differs
+        out["findings"].append(("twin:%s:observer-dropped" % sc["variant"].split("-")[0],
+                                "a connection of the script was closed by the server (%s) only in the world where the hidden "
+                                "part exists; hidden history %s, queries %s" % (ex.kind, sc["hidden"], sc["queries"][:6])))
+        return out
+    except (wire.Timeout, OSError, RuntimeError) as ex:
         out["inconclusive"] = "twin pair: %r" % (ex,)
         return out
     except NotRefused:
